@@ -31,3 +31,24 @@ Theorem C02_engine_reads_inline_as_params_substituted :
                   pieces_rel ftext b vals (pieces ftext b sc) tsp tsi.
 Proof. exact engine_reads_inline_as_params_substituted. Qed.
 Print Assumptions C02_engine_reads_inline_as_params_substituted.
+
+(* The premises hold for EVERY rendered expression whose literals lex.  For every expression tree without raw SQL
+   whose values and constants are written as lexable literals (expr_plain .. true: decidable; it holds for strings,
+   characters, byte strings, integers, booleans and NULLs by the literal theorems of C03, and is a hypothesis for
+   the texts of external formatters), every backend, both rendering paths and every table whose spellings lex:
+   the inline script is locally safe (Spec/ScriptSafe.v, mode true), hence inline_sep holds; with
+   C01_rendered_expression_is_separable for the parameterised mode, C02_engine_reads_inline_as_params_substituted
+   applies to the two texts of the expression. *)
+Require Import SQV.Model.Expr SQV.Model.RenderExpr SQV.Spec.ScriptSafe SQV.Proofs.ScriptSafeProofs
+  SQV.Proofs.ExprSafeProofs.
+Theorem C02_local_safety_gives_the_inline_premise :
+  forall (ftext : bool -> N -> str) b sc, sc_ok ftext b true sc = true -> inline_sep ftext b sc = true.
+Proof. exact sc_ok_inline_sep. Qed.
+Print Assumptions C02_local_safety_gives_the_inline_premise.
+
+Theorem C02_rendered_expression_is_separable_inline :
+  forall (ftext : bool -> N -> str) Q (rq : Q -> script) is_alpha b T (e : expr Q) common,
+  spellings_lex b T -> (forall q, sc_ok ftext b true (rq q) = true) -> expr_plain ftext Q b true e = true ->
+  inline_sep ftext b (rexpr Q rq is_alpha b T common e) = true.
+Proof. exact rendered_expression_is_separable_inline. Qed.
+Print Assumptions C02_rendered_expression_is_separable_inline.
